@@ -112,5 +112,20 @@ std::string run_p6crit(const Case& c)
   return "rv=" + join(r) + " rv3=" + join(r3) + " n=" + ts(LL(s.crend() - s.crbegin()));
 }
 
+// probe 7: mdarray::to_mdspan(accessor) with the accessor argument given explicitly on a non-const array
+template <class Lay, class Ext>
+std::string run_p7tm(const Case& c)
+{
+  VL E = c.list("E");
+  Ext e = make_ext<Ext>(E);
+  DS::mdarray<long, Ext, Lay> x(e, 5L);
+  auto w = x.to_mdspan(DS::default_accessor<long>{});
+  std::array<typename Ext::index_type, Ext::rank()> idx{};
+  VL p; long n = 0;
+  for (bool ok = first_tuple(idx, E); ok; ok = next_tuple(idx, E), ++n) { w[idx] = 7000 + n; p.push_back(&w[idx] - x.container_data()); }
+  VL v(x.container().begin(), x.container().end());
+  return "p=" + join(p) + " w=" + join(v);
+}
+
 } // namespace c14
 #endif
